@@ -518,6 +518,12 @@ def _valid_config(rng, docs, xml_safe) -> Dict[str, Any]:
            'as_str': rng.random() < 0.2, 'rebuild': bbox and (headers is None or sorted(hs) == sorted(ALL))}
     if inp['read_mode'] == 'explicit':
         inp['explicit_has_headers_flag'] = rng.random() < 0.5
+    # a file written WITH the box columns read WITHOUT them ("with or without bounding-box columns"): headerless
+    # file in the writer's default layout, reader told about the four leading columns only (its own default list
+    # with add_bounding_box=False, or that list supplied explicitly)
+    if bbox and hs == ALL and inp['read_mode'] != 'has_headers' and rng.random() < 0.5:
+        inp['narrow_read'] = True
+        inp['rebuild'] = False
     return inp
 
 
@@ -546,6 +552,9 @@ def _cfg_ok(inp) -> bool:
     # writer's own default (`headers=None`) is within the statement whenever the box columns are on, whatever it is
     cols_ok = (inp['bbox'] if explicit is None
                else len(hs) > 0 and len(set(hs)) == len(hs) and all(h in full for h in hs))
+    if inp.get('narrow_read') and not (inp['bbox'] and hs == ALL and inp.get('read_mode') in ('explicit', 'default')
+                                       and not inp.get('rebuild') and reader_default(False) == BASE):
+        return False
     return bool(cols_ok
                 and (inp.get('read_mode') != 'default' or explicit is None or hs == reader_default(inp['bbox']))
                 and inp.get('rebuild_bbox', True)
@@ -573,6 +582,8 @@ def _tags_rt(inp) -> List[str]:
     if inp.get('rebuild') and _flat_first_line(docs, inp['outer']):
         tags.append('flat-first-line')
     tags.append('mode:' + inp.get('read_mode', 'has_headers'))
+    if inp.get('narrow_read'):
+        tags.append('narrow-read')
     tags.append('bbox' if inp['bbox'] else 'nobbox')
     tags.append('outer' if inp['outer'] else 'inner')
     if inp.get('groupby'):
@@ -655,6 +666,11 @@ def _corpus() -> List[Case]:
         for mode in ('has_headers', 'explicit', 'default'):
             out.append(_rt({'docs': [nested, second], 'outer': outer, 'bbox': True, 'headers': None, 'read_mode': mode,
                             'split': [1, 1], 'groupby': 'doc_id' if outer else None, 'rebuild': True},
+                           ['corpus', 'code-defaults']))
+        # a file with the box columns read without them (reader's default columns / the four supplied explicitly)
+        for mode in ('explicit', 'default'):
+            out.append(_rt({'docs': [nested, second], 'outer': outer, 'bbox': True, 'headers': None, 'read_mode': mode,
+                            'narrow_read': True, 'groupby': 'textregion_id' if outer else None, 'rebuild': False},
                            ['corpus', 'code-defaults']))
     # regression (C14:flat-line-box, fixed by fc690f6): first line of a region with a flat box
     flat = _D('f', subs=[_R('r', [_L('l1', 'x', [1, 2, 29, 0])])])
@@ -1277,11 +1293,12 @@ class C14(Check):
             out['write'] = werr if werr else {'ok': contents}
             if werr is None and paths:
                 hs = headers if headers is not None else writer_default()
-                kw = dict(add_bounding_box=bbox)
+                narrow = bool(inp.get('narrow_read'))
+                kw = dict(add_bounding_box=bbox and not narrow)
                 if mode == 'has_headers':
                     kw['has_headers'] = True
                 elif mode == 'explicit':
-                    kw['line_file_headers'] = list(hs)
+                    kw['line_file_headers'] = list(BASE) if narrow else list(hs)
                     kw['has_headers'] = inp.get('explicit_has_headers_flag', True)
                 else:
                     kw['has_headers'] = False
@@ -1441,11 +1458,13 @@ class C14(Check):
                 files = w['ok']
                 mode = inp.get('read_mode', 'has_headers')
                 hs = inp.get('headers') if inp.get('headers') is not None else writer_default()
-                args = {'files': files, 'bbox': inp['bbox'], 'outer': inp['outer'], 'ws': _ws(*files)}
+                narrow = bool(inp.get('narrow_read'))
+                args = {'files': files, 'bbox': inp['bbox'] and not narrow, 'outer': inp['outer'], 'ws': _ws(*files)}
                 if mode == 'has_headers':
                     args.update(has_headers=True, headers=None)
                 elif mode == 'explicit':
-                    args.update(has_headers=inp.get('explicit_has_headers_flag', True), headers=hs)
+                    args.update(has_headers=inp.get('explicit_has_headers_flag', True),
+                                headers=list(BASE) if narrow else hs)
                 else:
                     args.update(has_headers=False, headers=None)
                 reqs.append(('lf_route', {'p': P, 'op': 'read', 'args': dict(args)}))
@@ -1691,11 +1710,12 @@ class C14(Check):
             if 'ok' not in lf:
                 bad(f'lf-route:error:{inp.get("read_mode")}', f'reading the line file back raised {lf}')
             else:
-                want = [{h: _norm(r).get(h) for h in hs} for r in exp]
+                narrow = bool(inp.get('narrow_read'))
+                want = [{h: _norm(r).get(h) for h in (BASE if narrow else hs)} for r in exp]
                 if lf['ok'] != want:
                     bad(f'lf-route:records:{inp.get("read_mode")}',
                         f'line file reads back as {short(lf["ok"], 300)}, written from {short(want, 300)}')
-                if full and perm_ok and 'ok' in dr and [_norm(r) for r in dr['ok']] != lf['ok']:
+                if full and not narrow and perm_ok and 'ok' in dr and [_norm(r) for r in dr['ok']] != lf['ok']:
                     bad('routes:docs-vs-linefile', 'in-memory route and line-file route yield different records')
         # (3) the PageXML-file route
         if 'files_route' in out:
